@@ -3,7 +3,7 @@ a deterministic baton scheduler over the real handshake worker thread and a netw
 an unscheduled soak.  Everything the layers under test see is real yowsup/consonance code; only
 *instances* are instrumented (queue, flush lock, `_in_handshake`, profile.write_config, the
 protocol state machine's after-change hook)."""
-import os, threading, time, collections, struct
+import os, sys, threading, time, collections, struct
 
 from . import c04_noise as NZ
 
@@ -66,6 +66,7 @@ class Sched(object):
         self.by_ident = {}
         self.log = []
         self.trace = []            # (ready tuple, chosen)
+        self.decisions = []        # per scheduling decision: the pending operation of every ready thread
         self.abort = False
         self.unmodelled = None
         self.anomalies = []
@@ -118,6 +119,7 @@ class Sched(object):
                 return
             tid = self.choose(ready, self)
             self.trace.append((tuple(ready), tid))
+            self.decisions.append({t: self.thr[t]["op"] for t in ready})
             t = self.thr[tid]
             t["state"] = "running"
             t["go"].release()
@@ -195,10 +197,18 @@ class ILock(object):
         self.s.note(16)
         return True
 
-    def release(self):
+    def release(self, unwinding=None):
         self.s.yield_("rel")
         self.owner = None
         self.s.note(17)
+        # scheduling point AFTER the release: whatever the thread still does with what it took from the queue
+        # (e.g. delivering frames upward outside the lock) can be overtaken by another thread's whole flush.
+        # Not while an exception unwinds through a finally / with block: the thread is dying, its clean-up
+        # release and its death are one observation.
+        if unwinding is None:
+            unwinding = sys.exc_info()[0] is not None
+        if not unwinding:
+            self.s.yield_("released")
 
     def locked(self):
         return self.owner is not None
@@ -208,7 +218,7 @@ class ILock(object):
         return self
 
     def __exit__(self, *a):
-        self.release()
+        self.release(unwinding=bool(a and a[0] is not None))
 
 
 PST = {"init": 0, "handshake": 1, "transport": 2, "error": 3}
@@ -268,6 +278,14 @@ class Rig(object):
                 self.got = []        # ('up', id) | ('failure', reason) | ('event', name)
 
             def receive(self, node):
+                # scheduling point at the arrival of a stanza above noise+coder (= the noise layer's toUpper):
+                # another thread can run a whole receive() between two deliveries / between a lock release and
+                # the delivery that follows it
+                # (not while this thread holds the flush lock: there the others can only put / test the state /
+                # block on the lock, all of which they can equally do at the adjacent queue operations, so the
+                # point would add schedules but no behaviour)
+                if rig.sched is not None and getattr(rig.noise._flush_lock, "owner", None) != rig.sched.me():
+                    rig.sched.yield_("up")
                 if node.tag == "failure":
                     self.got.append(("failure", node["reason"]))
                     rig.note(13)
@@ -457,11 +475,18 @@ def run_scheduled(scratch, name, scn, choose, rng):
             return not workers_alive()
         return True
 
+    def gated(i):
+        # gate_from: script items from this index on reach the network thread only once the protocol state is
+        # transport (frames the server sends after the handshake completed, as opposed to frames pushed right
+        # behind the server hello)
+        g = scn.get("gate_from")
+        return g is not None and i >= g and rig.noise._wa_noiseprotocol.state != "transport"
+
     def nt_body():
         buf = bytearray()
         att = -1
         for i, it in enumerate(script):
-            sched.yield_("event", pred=lambda i=i: available(i))
+            sched.yield_("event", pred=lambda i=i: available(i) and not gated(i))
             if it[0] == "auth":
                 att += 1
                 if len(it) > 1 and it[1]:
@@ -486,9 +511,12 @@ def run_scheduled(scratch, name, scn, choose, rng):
             if scn.get("hold") and scn["hold"][i] and i + 1 < len(script) and script[i + 1][0] == "data" \
                     and available(i + 1) and len(buf) > 1:
                 hold = rng.randint(1, min(len(buf) - 1, 40))
+            if i in (scn.get("glue") or ()) and i + 1 < len(script) and script[i + 1][0] == "data" \
+                    and available(i + 1) and not gated(i + 1):
+                hold = len(buf)          # glue: this segment goes up in the SAME read as the next one
             feed = bytes(buf[:len(buf) - hold])
             del buf[:len(buf) - hold]
-            for c in chunks_of(rng, feed, scn.get("chunk", "whole")):
+            for c in (chunks_of(rng, feed, scn.get("chunk", "whole")) if feed else []):
                 chunk_log.append(len(c))
                 rig.seg.receive(c)
 
@@ -547,7 +575,7 @@ def run_scheduled(scratch, name, scn, choose, rng):
         sched.shutdown()
     obs = {
         "log": sched.log, "status": status, "trace": [c for _, c in sched.trace],
-        "ready_sets": [list(r) for r, _ in sched.trace],
+        "ready_sets": [list(r) for r, _ in sched.trace], "decisions": sched.decisions,
         "unmodelled": sched.unmodelled, "anomalies": sched.anomalies,
         "top": rig.top.got, "state": PST.get(rig.noise._wa_noiseprotocol.state, 9),
         "inq_left": inq_left, "lock_owner": lock_owner,
